@@ -50,6 +50,9 @@ def run(ctx, chk):
     # 1. claim-before-read
     n = DR.per_byte(chk, "C01", prog, eff, {"claim-before-read", "payload"})
     chk.floor("C01.claim-before-read", "reads of the buffer on decoder paths", n, 350)
+    chk.rule("C01.payload-copy", "the string builders read exactly the `length` payload bytes the decoder claimed, not one more")
+    npc = DR.payload_reads(chk, "C01.payload-copy", prog, eff, cache)
+    chk.floor("C01.payload-copy", "payload reads in the string builders", npc, 2)
 
     # 2. memcpy
     nm = 0
@@ -166,14 +169,8 @@ def run(ctx, chk):
         f0 = prog.fn(r["scc"][0])
         w0 = "%s:%d" % (f0.file, f0.line)
         chk.ob("C01.descent", "SCC {%s}: static frames" % name, not r["dynamic_allocas"], w0, fn=r["scc"][0], key="vla:" + name)
-        if r["scc"] == ["_cbor_builder_append"]:
-            g = prog.fn("_cbor_builder_append")
-            for a, b, c, label, detail in r["edges"]:
-                pops = [p_ for p_ in g.calls("_cbor_stack_pop") if g.dominates(p_, c)]
-                chk.ob("C01.descent", "recursive append at line %d follows a stack pop" % c.line, bool(pops), c.loc(), fn=g.name, key="append:%d" % c.line)
-            continue
         unk = [e for e in r["edges"] if e[3] == "unknown"]
-        ok = r["cycle"] is None and not unk
+        ok = r["cycle"] is None   # edges that neither descend nor pop stay in the graph: any cycle through them is reported
         det = ""
         if r["cycle"]:
             det = "cycle that does not descend: " + " -> ".join("%s@%s" % (a, c.loc()) for a, b, c in r["cycle"])
